@@ -143,6 +143,19 @@ def run_cfg(chk, cfg, mode, drv_lines, keep, all_faults=True):
             if bad:
                 chk.fail("resumed run equals the uninterrupted run", case, "; ".join(bad[:6]),
                          {"clause": "equal", "route": route, "fields": sorted({b.split(":")[0].split("[")[0].split(".")[0] for b in bad})})
+            # retry IN PLACE: the very sampler object whose run died continues from its own last checkpoint (what a `try: ... except: s.sample(...,
+            # resume_from=s.last_checkpoint_bytes)` loop does) - nothing the aborted iteration left on the object may leak into the rest
+            if j % 3 == 1 and r1["ckpts"]:
+                chk.count("resume_in_place")
+                r4 = smcrun.run_smc(cfg, reuse=r1, resume_from=r1["ckpts"][-1]["bytes"], record_checkpoints=True)
+                case4 = dict(case, resumed_on_the_same_sampler_object=True, route="bytes")
+                if r4["status"] != "done":
+                    chk.fail("resumed run completes", case4, repr(r4.get("exc")), {"clause": "raise", "route": "bytes", "in_place": True})
+                else:
+                    bad4 = diff(R, snapshot(r4))
+                    if bad4:
+                        chk.fail("resumed run equals the uninterrupted run", case4, "retry in place: " + "; ".join(bad4[:6]),
+                                 {"clause": "equal", "route": "bytes", "in_place": True, "fields": sorted({b.split(":")[0].split("[")[0].split(".")[0] for b in bad4})})
             # model: interrupted after `done_iters` completed iterations, resumed from its last checkpoint
             if len(drv_lines) < 400 and j % 3 == 0:
                 drv_lines.append(c06.loop_line(cfg, rec0, ref["rng"], cut=done_iters, resume=True, every=ev))
